@@ -141,7 +141,7 @@ class C02(Prop):
             "CHECK (col op k [AND|OR ...]) / FOREIGN KEY (1..3) REFERENCES ..., each table-level item at any position "
             "among the columns; names plain or delimited; non-trivial = >= 1 table-level item and >= 1 inline "
             "constraint in the same table, or a constraint of >= 3 columns; distinct = SHA-1 of the case")
-    budgets = {"quick": 4000, "thorough": 200000}
+    budgets = {"quick": 10000, "thorough": 200000}
     assumptions = [
         "two-word referential actions (SET NULL, NO ACTION) are known finding K9 and not generated",
         "an unnamed single-column UNIQUE clause is always placed behind its column (known finding K16)",
